@@ -770,3 +770,24 @@ def oracle(c, impl):
         exp = [[CODES[s[i * k + j]] for j in range(k)] for i in range(k)]
         return None if impl['codes'] == exp and impl['k'] == k else f'format_bayer_string: {impl} expected {exp}'
     return None
+
+
+
+# ------------------------------------------------------------------ WP-T2: translation layer (source -> Gallina)
+# An ADDITIONAL tie: harness/gen_src.py (suite 'C16') translates the Bayer mosaic repetition counts of collect_charge_bayer and the model order of adc (lentil/detector.py) from the CURRENT source
+# text into coq/theories/Gen/DetectorSrc.v; Proofs/DetectorSrcP.v proves every translated term equal to the model for all integers;
+# Properties/C16Src.v states it.  Policy (as for C06): a function the translator refuses is only reported
+# (coverage.extra.refused); a translated function whose equivalence lemma no longer compiles is a VIOLATION with a
+# witness searched on an exhaustive small box (replayable: op 'src').  The build of C16Src happens here, never in
+# COQ_TARGETS.
+def extra(tier, rng):
+    from .. import gen_src as G
+    return G.run_layer('C16', ID, tier, rng, C)
+
+
+def _wrap_src_replay():
+    from .. import gen_src as G
+    return G.wrap_replay(run_impl, oracle, C)
+
+
+run_impl, oracle = _wrap_src_replay()
